@@ -295,11 +295,34 @@ CHECKS = {
          "as drift only: ENDFINALLY in a called frame with an empty try stack while an exception is pending). The harness assembler/opcode table are trusted. Byte strings over "
          "64 bytes are compared by length, head/tail and a sampled checksum; the text of engine-raised exceptions is not compared; gas values are compared run-to-run only.",
          "TLC enumeration and simulation of an executable TLA+ specification; differential replay on pkg/vm; determinism double-run"),
+ "C14": ("model_checking",
+         "PARTIAL. Spec-based differential checking on a grammar-generated program space: programs are abstract syntax trees of a SUBSET of the documented "
+         "dialect (GoSubset.tla: int/bool/string/[]byte/[]int/map[int]int/map[string]int/struct value/*struct; arithmetic, comparison, short-circuit logic, "
+         "indexing, len, append (self-assign on unaliased slices), map comma-ok/delete, fields, pointer-receiver methods, calls with several / named results, "
+         "bounded recursion, conversions string<->[]byte, if/else-if/init, the three for forms, range over slices/maps/string indexes, labelled break/continue, "
+         "expression/tagless/fallthrough switch, early return, defer/recover/panic in the supported forms, globals with initialisers, shadowing blocks) with an "
+         "executable TLA+ big-step semantics GoSem (total: ok | panic | out-of-scope; kept honest by 12 algebraic laws of Go and 7 named deviations that TLC refutes "
+         "every run). EXHAUSTIVE small space (GoEnum): all expressions of depth <= 2 over two variables and the operator set (28k functions; every 8th in the quick "
+         "tier), all && / || combinations with side-effecting operands, op=/++/-- on 7 kinds of lvalue, value/reference semantics of arguments, 536 statement "
+         "skeletons of depth <= 2 (15 control structures x every legal filler, named-result and deferred variants). SAMPLED large space (GoGen): programs derived "
+         "step by step by tlc -simulate (260 production choices, type directed: every program type checks), 1000 (quick) / 12800 (thorough) per run, 7 boundary "
+         "argument vectors each. The SAME source text is compiled by pkg/compiler and run in the real VM through its manifest entry, and compiled by the standard Go "
+         "toolchain and run natively; VM vs toolchain on the whole result value / panic is the verdict (failing programs are delta-debugged on the syntax tree); "
+         "GoSem vs toolchain is drift only. SECOND CLAUSE: per compiled program (generated, probes, the 13 stand-alone contracts of /repo/examples and "
+         "internal/contracts, compile only) manifest, debug information, decoded instruction stream, source declarations and call observations are judged by "
+         "AbiMatches.tla (23 predicates, TLC trace validation). The undocumented dialect differences found on the unchanged tree are excluded from generation and "
+         "kept as fixed probe programs (listed findings; three of them repaired).",
+         "DESIGN.md section 10.10 (C14)",
+         "NOT covered: the rest of the dialect (interop packages and syscalls, inlined helpers, interfaces and type assertions, lambdas, arrays, nested structs, "
+         "slices of structs, variadics, multi-package programs, _deploy bodies), programs beyond the bounds (|integer| >= 2^30, 400 loop iterations + calls, "
+         "260 derivation steps, depth 3), 64-bit overflow boundary behaviour, constructs of the exclusion register (documented X1-X6; undocumented U1-U14 as "
+         "probes; G1-G3 left open by the Go specification: evaluation order variable-read vs call, map iteration order). Trusted: the Go toolchain (the oracle), "
+         "go/types, the harness's pretty printer and result codec (self-tested by an altered-tree run: 200 cases must be flagged).",
+         "executable TLA+ semantics as generator and drift detector; TLC exhaustive enumeration + simulation; differential replay on pkg/compiler + pkg/vm vs go build; TLC trace validation of ABI facts"),
 }
 
 NOT_YET = {}   # id -> reason (properties not (yet) claimed)
 NA = {
- "C14": "not applicable to the studied family: relates two programs (Go source vs emitted bytecode) over an unbounded program space with the Go toolchain as oracle; no state machine, schedule or history to model (DESIGN.md section 5)",
  "C17": "not applicable to the studied family: byte-level encode/decode fidelity of ~20 formats over all byte strings is grammar restatement, which TLC cannot enumerate; the one behavioural slice (identity of a transaction received in a non-canonical encoding) is reached through C07 (DESIGN.md section 5)",
 }
 
@@ -372,6 +395,12 @@ EXTRA_TEXT = {
         "KeyCacheImpl (the LRU cache of publickey.go, capacity 2-3 exhaustive, four deviations refuted), TLC call histories replayed each in a fresh process against an "
         "independent curve-equation decoder. KeysTrace judges seeded call sequences by the term-equality closure and exhaustive single-change sweeps of WIF / NEP-2 / "
         "address strings, serialized keys and signatures.",
+ "C19": " Extension recovery (spec/dbftrec, harness/c19dbft TestRecDriver): DBFTRec.tla makes RecoveryRequest / RecoveryMessage payloads of their own (who asks, who answers, what a "
+        "message carries as a function of its sender's state, what the receiver's decoder rebuilds) and judges Agreement, CommitLock, Acceptable, AcceptJustified, RecoverySound, "
+        "RecoveryAdequate (eight named deviations refuted); DBFTChain.tla covers 2-3 heights with the primary rotating by height, the future-height payload cache, late payloads and "
+        "block relay (AgreementH, NoSkip, CacheHarmless; four deviations refuted); exhaustive runs N=4 up to 3.1M states; every payload sent by the real services is decoded and "
+        "recorded, every RecoveryMessage both as its compact payloads on the wire and as the node's own decoder rebuilds them, judged by DBFTRecTrace against the set of payloads "
+        "really sent; scripted recovery windows and future-height scenarios incl. N=7.",
  "C20": " Later additions: LedgerOnce.tla (AddBlock as one critical section; deviation CheckOutsideLock refuted) bound by rounds in which 2-5 goroutines "
         "offer decoded copies of the SAME next block (+ a stale one) to the real Blockchain.AddBlock, judged by TLC (StoredExactlyOnce, HeightByOne, "
         "StateAsReference); stripped-body junk blocks in state sync; two scripted worlds reproducing the listed findings of state-synchronised nodes. "
